@@ -429,7 +429,15 @@ class Verifier(Engine):
             self.assume(self.typeof(r) == self.class_id("PyValue"))
             return V(Ty("ref", "PyValue"), r)
         if h is None or h.kind != "dict":
-            raise Unsupported("dict literal without a `locals` type hint")
+            # no declared type for this local: infer it from the first explicit key / value (its own anonymous region)
+            pair = next(((k, v) for k, v in zip(n.keys, n.values) if k is not None), None)
+            if pair is None:
+                raise Unsupported("dict literal without a `locals` type hint")
+            k0, v0 = self.ev_v(pair[0]), self.ev_v(pair[1])
+            if not isinstance(k0, V) or not isinstance(v0, V):
+                raise Unsupported("dict literal without a `locals` type hint")
+            self._anon_regions = getattr(self, "_anon_regions", 0) + 1
+            h = Ty("dict", k0.ty, v0.ty, "anon%d" % self._anon_regions)
         d = self.new_dict(h)
         first = True
         for k, v in zip(n.keys, n.values):
